@@ -2,10 +2,10 @@
    parsed from /repo/src on this run (Gen/Bodies.v, translator T5) and run by the evaluator of
    Model/RustSem.v, compute exactly what the hand-written machines compute - and therefore the
    documented list functions.  This file holds only the property theorems, each closed by `exact`. *)
-From RxModel Require Import BodyAbs.
+From RxModel Require Import BodyAbs BodyAbsExt.
 From RxSpec Require Import Ops1Spec.
 From RxGen Require Import Bodies.
-From RxProofs Require Ops1Laws BodyTie.
+From RxProofs Require Ops1Laws BodyTie BodyTieExt.
 
 (* One call of next(): same new state (laid out in the struct's fields), same notifications sent on. *)
 Theorem C03_source_next : forall o : op1, next_agrees bodies o.
@@ -30,13 +30,21 @@ Theorem C03_source_meets_spec :
   forall (o : op1) (items : list val) (t : term), src_run_op bodies o (mk items t) = Some (spec1 o items t).
 Proof. exact BodyTie.src_meets_spec. Qed.
 
+(* The operators that observable.rs defines by composition (first, first_or, last_or, element_at, ignore_elements, all,
+   reduce_initial, max, min): the translated default method of ObservableExt, evaluated on the upstream observable, builds
+   exactly the operator values of Derived.expand, in that order and with those counts. *)
+Theorem C03_source_derived_compositions : derived_agrees bodies.
+Proof. exact BodyTieExt.derived_ok. Qed.
+
 Check C03_source_next : forall o, next_agrees bodies o.
+Check C03_source_derived_compositions : derived_agrees bodies.
 Check C03_source_terminal : forall o, terminal_agrees bodies o.
 Check C03_source_subscribe : forall o, init_agrees bodies o.
 Check C03_source_runs_like_the_machine : forall o s, src_run_op bodies o s = Some (run_op o s).
 Check C03_source_meets_spec : forall o items t, src_run_op bodies o (mk items t) = Some (spec1 o items t).
 
 Print Assumptions C03_source_next.
+Print Assumptions C03_source_derived_compositions.
 Print Assumptions C03_source_terminal.
 Print Assumptions C03_source_subscribe.
 Print Assumptions C03_source_runs_like_the_machine.
@@ -45,6 +53,10 @@ Print Assumptions C03_source_meets_spec.
 (* Non-vacuity: the translated take(2) run on a concrete script, inside Coq. *)
 Example C03_example_source_take :
   src_run_op bodies (OTake 2) [Next (VZ 5); Next (VZ 6); Next (VZ 7); Done] = Some [Next (VZ 5); Next (VZ 6); Done].
+Proof. vm_compute. reflexivity. Qed.
+
+Example C03_example_source_element_at :
+  ext_skeleton bodies "element_at" [VNat 3] = Some [("SkipOp", PNum 3); ("TakeOp", PNum 1)].
 Proof. vm_compute. reflexivity. Qed.
 
 (* the evaluator refuses what it does not understand: an unknown method has no meaning *)
